@@ -1,4 +1,6 @@
 import IwModel.Lemmas.Txt
+import IwModel.Lemmas.TxtPtr
+import IwModel.Lemmas.TxtConv
 /-! # C17 — text-consuming functions are memory-safe on any input and depend only on it
 
 Property theorems only; helper lemmas live in `IwModel/Lemmas/Txt*.lean`.
@@ -58,5 +60,44 @@ theorem parse_key_safe (buf : Bytes) (i : Nat) (h : HasNul buf i) : parseKey buf
     without a terminator the model does report the out-of-range read. -/
 example : HasNul [97, 34, 0] 0 := ⟨2, by decide, rfl⟩
 example : unesc [92] 34 0 0 0 [] = .oob := by rw [unesc]; rfl   -- a backslash as the last byte of a block
+
+/-- **`_jbl_ptr_pool` (JSON Pointer parser) stays inside the path and inside the block it allocated**:
+    for every NUL-terminated byte string — with `~` anywhere, empty segments, a trailing `/`, bytes
+    ≥ 0x80 — neither the counting pre-pass, nor the `path[len-1]` test, nor the fill loops read behind
+    the terminator, and every store into the data area (`sizeof(struct jbl_ptr) - offsetof(n) + len`
+    bytes behind the `n[]` slots) is in range. Relies on the pre-pass rejecting a `~` that is not
+    followed by `0`/`1` (fix of F10); without it the statement is false (witness `"/~"`, replayed on
+    the implementation by the mutant `ptr_no_tilde_check`). -/
+theorem ptr_parse_safe (path : Bytes) (h : HasNul path 0) : ptrParse path ≠ .oob :=
+  ptrParse_safe path h
+
+theorem ptr_parse_cstring_safe (s : Bytes) : ptrParse (s ++ [0]) ≠ .oob :=
+  ptr_parse_safe _ ⟨s.length, Nat.zero_le _, by simp⟩
+
+/-- **`iwjson_ftoa` never indexes outside its `IWNUMBUF_SIZE` buffer**, whatever text `snprintf`
+    would have produced for `"%.8Lf"` and `"%.17Lg"` (any length, any bytes: huge magnitudes, `inf`,
+    `nan`, a decimal comma). -/
+theorem ftoa_safe (t8 t17 : Bytes) : ftoa t8 t17 ≠ .oob := Txt.ftoa_safe t8 t17
+
+/-- the function as it was before the repair of F6 does leave the buffer: 33 characters
+    (`1e24` printed with `"%.8Lf"`) make the trimming loop read `buf[32]`. -/
+theorem ftoa_old_overrun : ftoaOld ("1000000000000000000000000.00000000".toList.map Char.toNat) = .oob := by decide
+
+/-- **`iwatoi2` reads only `len` bytes** (`len` not larger than the block): blanks, sign, the `inf`
+    test and the digit loop stay inside, for every content. -/
+theorem atoi2_safe (s : Bytes) (len : Nat) (h : len ≤ s.length) : atoi2 s len ≠ none := Txt.atoi2_safe s len h
+
+/-- **`iwafcmp` reads only `asiz` / `bsiz` bytes** of its arguments, for every content (digit runs of
+    any length, a point as last byte, blanks only, …). -/
+theorem afcmp_safe (a b : Bytes) (asiz bsiz : Nat) (ha : asiz ≤ a.length) (hb : bsiz ≤ b.length) :
+    afcmp a asiz b bsiz ≠ none := Txt.afcmp_safe a asiz b bsiz ha hb
+
+/-- **`iwhex2bin` reads only `hexlen` bytes and stores at most `max` bytes** (into a buffer of at
+    least `max` bytes), for every content and both parities of `hexlen`. -/
+theorem hex2bin_safe (hex : Bytes) (hexlen max cap : Nat) (hl : hexlen ≤ hex.length) (hcap : max ≤ cap) :
+    hex2bin hex hexlen max cap ≠ none := Txt.hex2bin_safe hex hexlen max cap hl hcap
+
+/-- the generated constants the theorems lean on -/
+theorem gen_side_conditions : Txt.escMap 0 = 256 ∧ Gen.IWNUMBUF_SIZE = 32 ∧ Gen.JBL_PTR_OFF_N ≤ Gen.JBL_PTR_SIZEOF := by decide
 
 end IwModel.C17
